@@ -1,9 +1,111 @@
-/- Driver operations for C12 (stub: to be filled by the property's model). -/
+/- Driver operations for C12: the SM3 model (`Model/SM3.lean`) at `Rat` (exact accumulator histories)
+and at `Float` (binary64: histories with gradient normalisation, and one full update including `sqrt`,
+momentum, int8 quantization and weight decay).  Mathlib-free.
+
+Scalars cross as IEEE-754 binary64 bit patterns (`"0x…"`, 16 hex digits; float32 values of the
+implementation are widened exactly by the harness); exact results go back as `"p/q"`. -/
 import PrecondVerif.Kit.Proto
+import PrecondVerif.Model.SM3
 
 namespace PrecondVerif.Drv.C12
-open Lean PrecondVerif.Proto
+open Lean PrecondVerif.Proto PrecondVerif.SM3 PrecondVerif.Quant
 
-def ops : List Op := []
+/-- exact value of a finite IEEE-754 binary64 bit pattern -/
+def f64ToRat (bits : Nat) : R Rat :=
+  let neg : Bool := bits / 2 ^ 63 % 2 == 1
+  let e : Nat := bits / 2 ^ 52 % 2048
+  let m : Nat := bits % 2 ^ 52
+  if e = 2047 then .error "non-finite float in input" else
+  let mant : Nat := if e = 0 then m else m + 2 ^ 52
+  let ex : Int := if e = 0 then -1074 else (e : Int) - 1075
+  let mag : Rat := (mant : Rat) * (2 : Rat) ^ ex
+  .ok (if neg then -mag else mag)
+
+def asExact (j : Json) : R Rat := do
+  match j with
+  | .str s => if s.startsWith "0x" then f64ToRat (← parseHex s) else parseRat s
+  | _ => asRat j
+
+instance : NatCast Float := ⟨Float.ofNat⟩
+instance : IntCast Float := ⟨Float.ofInt⟩
+/-- floor of a binary64 value of moderate size (the model only floors ratios bounded by the bucket count) -/
+instance : HasFloor Float := ⟨fun x => (Float.floor x).toInt64.toInt⟩
+
+structure Codec (α : Type) where
+  dec : Json → R α
+  enc : α → Json
+
+def ratC : Codec Rat := ⟨asExact, ratToJson⟩
+def fltC : Codec Float := ⟨asFloat, floatToJson⟩
+
+def accsJson {α} (c : Codec α) (a : Accs α) : Json :=
+  listToJson (fun v : Array α => listToJson c.enc v.toList) a
+
+def prodL (l : List Nat) : Nat := l.foldr (· * ·) 1
+
+/-- accumulators along a gradient history: states after 0, 1, …, T updates and the last ν tensor -/
+def historyOp {α : Type} [OfNat α 0] [OfNat α 1] [Add α] [Sub α] [Neg α] [Mul α] [Div α]
+    [LT α] [DecidableLT α] (c : Codec α) (norm : Option (List α → List α)) (j : Json) : R Json := do
+  let shape ← getNats j "shape"
+  if shape = [] then throw "rank 0" else
+  if shape.any (· == 0) then throw "zero-size dimension" else
+  let β2 ← c.dec (← field j "beta2")
+  let gsJ ← asList (← field j "gs")
+  let gs ← gsJ.mapM (asListOf c.dec)
+  if gs.any (fun g => g.length ≠ prodL shape) then throw "gradient length does not match shape" else
+  let upd := codeUpd β2 (wOf β2)
+  let mut accs : Accs α := initAccs shape
+  let mut out : Array Json := #[accsJson c accs]
+  let mut nu : List α := []
+  for g0 in gs do
+    let gl := match norm with
+      | some f => f g0
+      | none => g0
+    let pairs := nuList upd shape accs (ofFlat 0 shape gl.toArray)
+    nu := pairs.map (·.2)
+    accs := sketch shape pairs
+    out := out.push (accsJson c accs)
+  pure (obj [("accs", Json.arr out), ("nu", listToJson c.enc nu), ("w2", c.enc (wOf β2))])
+
+def ops : List Op := [
+  -- exact (Rat) or binary64 accumulator history through `accStep`
+  ("history", fun j => do
+    match (← getStr j "scalar") with
+    | "rat" =>
+      if (← getBool j "normalize") then throw "normalisation needs sqrt: use scalar=float" else
+      historyOp ratC none j
+    | "float" =>
+      let ne ← asFloat (← field j "norm_eps")
+      let norm : Option (List Float → List Float) :=
+        if (← getBool j "normalize") then some (normalizeG Float.sqrt ne) else none
+      historyOp fltC norm j
+    | s => throw s!"unknown scalar {s}"),
+  -- one full `update_fn` at binary64 from a given state
+  ("step", fun j => do
+    let shape ← getNats j "shape"
+    if shape = [] then throw "rank 0" else
+    if shape.any (· == 0) then throw "zero-size dimension" else
+    let n := prodL shape
+    let h : Hyper Float := {
+      lr := ← asFloat (← field j "lr"), beta1 := ← asFloat (← field j "beta1"),
+      beta2 := ← asFloat (← field j "beta2"), eps := ← asFloat (← field j "eps"),
+      wd := ← asFloat (← field j "wd"), normEps := ← asFloat (← field j "norm_eps"),
+      normalize := ← getBool j "normalize", buckets := ← getNat j "buckets" }
+    let accsJ ← asList (← field j "accs")
+    let accs ← accsJ.mapM (asListOf asFloat)
+    if accs.map (·.length) ≠ shape then throw "accumulator shapes do not match" else
+    let mq ← getInts j "mq"
+    let mb ← getFloats j "mb"
+    let param ← getFloats j "param"
+    let grad ← getFloats j "grad"
+    if mq.length ≠ n ∨ param.length ≠ n ∨ grad.length ≠ n ∨ mb.length ≠ colsOf shape then
+      throw "data length does not match shape" else
+    let r := fullStep Float.sqrt h shape (accs.map (·.toArray)) mq.toArray mb.toArray
+      param.toArray grad.toArray
+    let fl := listToJson floatToJson
+    pure (obj [("g", fl r.g), ("nu", fl r.nu), ("accs", accsJson fltC r.accs), ("pg", fl r.pg),
+      ("mold", fl r.mold), ("mom", fl r.mom), ("q", intsToJson r.q), ("bucket", fl r.bucket),
+      ("update", fl r.update)]))
+]
 
 end PrecondVerif.Drv.C12
